@@ -118,3 +118,27 @@ def all_lines(rng, n):
         out.append((blank, 8, "blank"))
     rng.shuffle(out)
     return out[: max(n, len(rules) * 2)]
+
+
+BLOCK_SPLITTERS = ("b ", "bz ", "bnz ", "callsub ", "retsub", "return", "err", "switch ", "match ")
+
+
+def stack_soup(rng, n):
+    """a straight-line sequence of n random opcodes (any rule of the parser table that does not end a block),
+    biased towards stack-shuffling and multi-push/pop ones; returns program text"""
+    tb = tables()
+    rules = [r for r in tb["rules"] if not r[0].startswith(BLOCK_SPLITTERS) and r[0] != "#pragma version " and r[1] not in ("Intcblock",)]
+    shuffle = ["dup", "dup2", "swap", "pop", "select", "dig 1", "dig 2", "dig 3", "cover 1", "cover 2", "cover 3", "uncover 1", "uncover 2",
+               "uncover 3", "bury 1", "bury 2", "popn 1", "popn 2", "popn 3", "popn 4", "dupn 1", "dupn 2", "dupn 3", "pushints 1 2 3", "mulw", "addw",
+               "divmodw", "expw", "app_global_get_ex", "asset_holding_get AssetBalance", "frame_dig 0", "frame_bury 0", "proto 2 1",
+               "int 1", "int 2", "txn RekeyTo", "global ZeroAddress", "txn Fee", "==", "!=", "&&", "||", "!", "+", "-", "<", "assert", "load 0", "store 0"]
+    out = ["#pragma version 8"]
+    for _ in range(n):
+        if rng.random() < 0.7:
+            out.append(rng.choice(shuffle))
+        else:
+            key, cls, shape = rng.choice(rules)
+            imm = imm_for(rng, shape, tb)
+            base = key.rstrip(" ")
+            out.append(base if imm == "" else base + " " + imm)
+    return "\n".join(out)
